@@ -1,5 +1,6 @@
 import HioModel.Memo.RendLemmas
 import HioModel.Memo.AsmLemmas
+import HioModel.Memo.HeadLemmas
 /-!
 # C20 — memos survive segmentation into grams and any delivery order
 
@@ -79,10 +80,98 @@ theorem rend_fuse (cfg : TxCfg) (sign : Bytes → Bytes → Except Exn Bytes) (m
             refine ⟨num, ?_, by simpa using hg⟩
             rw [Nat.add_comm]; exact hnum
 
+/-- header_roundtrip (Base64 text headers, every code of the regenerated table, signed or not): a datagram laid out as `rend` lays it
+out — code, number field `intToB64b(n, nz)` with `n < 64^nz`, mid, vid part, body, signature part, each of the size the table gives —
+is parsed by `pick` into exactly these fields: the number comes back as `n` (Base64 round trip), the signed part is everything before
+the signature, the body is what lies between header and signature.  What remains is the three-way code switch and `verify`. -/
+theorem header_roundtrip_b64 (authic : Bool) (vidOf : Bytes → Option Bytes) (V : Bytes → Bytes → Bytes → Except Exn Unit)
+    (code num mid vid0 body sigb : Bytes) (s : Sizage) (n : Nat)
+    (hs : sizesOf code = .ok s) (hau : authic = true → Gen.authDex.contains code = true)
+    (hnz : 1 ≤ s.nz) (hn : n < 64 ^ s.nz) (hnum : numField false n s.nz = .ok num)
+    (hmid : mid.length = s.mz) (hvid : vid0.length = s.vz) (hsig : sigb.length = s.az) :
+    pick authic vidOf V (code ++ (num ++ (mid ++ (vid0 ++ (body ++ sigb))))) =
+      match classify code vidOf n mid vid0 (utf8Valid mid) with
+      | .error e => .error e
+      | .ok (gn, gc, vid) => pickTail V mid vid (utf8Valid mid) gn gc sigb (code ++ (num ++ (mid ++ (vid0 ++ body)))) body := by
+  obtain ⟨h1, h2⟩ := numField_b64_roundtrip n s.nz hnz hn num hnum
+  exact pick_layout_b64 authic vidOf V code num mid vid0 body sigb s n hs hau h1 h2 hmid hvid hsig
+
+/-- … unsigned zeroth gram: `(mid, no vid, gram number 0, count n, body)` whatever the receiver state -/
+theorem header_roundtrip_zeroth_unsigned (vidOf : Bytes → Option Bytes) (V : Bytes → Bytes → Bytes → Except Exn Unit)
+    (code num mid body : Bytes) (s : Sizage) (n : Nat)
+    (hs : sizesOf code = .ok s) (hz : Gen.zeroDex.contains code = true) (hv : s.vz = 0) (ha : s.az = 0)
+    (hnz : 1 ≤ s.nz) (hn : n < 64 ^ s.nz) (hnum : numField false n s.nz = .ok num) (hmid : mid.length = s.mz) (hutf : utf8Valid mid = true) :
+    pick false vidOf V (code ++ (num ++ (mid ++ body))) = .ok ⟨mid, none, 0, some n, body⟩ := by
+  have := header_roundtrip_b64 false vidOf V code num mid [] body [] s n hs (by simp) hnz hn hnum hmid (by simp [hv]) (by simp [ha])
+  simp only [List.nil_append, List.append_nil] at this
+  rw [this]
+  have hz' : code ∈ Gen.zeroDex := by simpa using hz
+  simp [classify, hz', pickTail, hutf]
+
+/-- … unsigned later gram, when the receiver holds no vid for that memo id: `(mid, no vid, gram number n, no count, body)` -/
+theorem header_roundtrip_later_unsigned (vidOf : Bytes → Option Bytes) (V : Bytes → Bytes → Bytes → Except Exn Unit)
+    (code num mid body : Bytes) (s : Sizage) (n : Nat)
+    (hs : sizesOf code = .ok s) (hz : Gen.zeroDex.contains code = false) (hg : Gen.gramDex.contains code = true) (hv : s.vz = 0) (ha : s.az = 0)
+    (hnz : 1 ≤ s.nz) (hn : n < 64 ^ s.nz) (hnum : numField false n s.nz = .ok num) (hmid : mid.length = s.mz) (hutf : utf8Valid mid = true)
+    (hvo : vidOf mid = none) :
+    pick false vidOf V (code ++ (num ++ (mid ++ body))) = .ok ⟨mid, none, n, none, body⟩ := by
+  have := header_roundtrip_b64 false vidOf V code num mid [] body [] s n hs (by simp) hnz hn hnum hmid (by simp [hv]) (by simp [ha])
+  simp only [List.nil_append, List.append_nil] at this
+  rw [this]
+  have hz' : code ∉ Gen.zeroDex := by simpa using hz
+  have hg' : code ∈ Gen.gramDex := by simpa using hg
+  simp [classify, hz', hg', pickTail, hutf, hvo]
+
+/-- … signed zeroth gram whose signature verifies under the vid it carries: `(mid, that vid, 0, count n, body)` -/
+theorem header_roundtrip_zeroth_signed (authic : Bool) (vidOf : Bytes → Option Bytes) (V : Bytes → Bytes → Bytes → Except Exn Unit)
+    (code num mid vid0 body sigb : Bytes) (s : Sizage) (n : Nat)
+    (hs : sizesOf code = .ok s) (hau : Gen.authDex.contains code = true) (hz : Gen.zeroDex.contains code = true)
+    (hnz : 1 ≤ s.nz) (hn : n < 64 ^ s.nz) (hnum : numField false n s.nz = .ok num) (hmid : mid.length = s.mz) (hutf : utf8Valid mid = true)
+    (hvid : vid0.length = s.vz) (hvne : vid0 ≠ []) (hvutf : utf8Valid vid0 = true) (hsig : sigb.length = s.az) (hsne : sigb ≠ [])
+    (hver : V vid0 sigb (code ++ (num ++ (mid ++ (vid0 ++ body)))) = .ok ()) :
+    pick authic vidOf V (code ++ (num ++ (mid ++ (vid0 ++ (body ++ sigb))))) = .ok ⟨mid, some vid0, 0, some n, body⟩ := by
+  rw [header_roundtrip_b64 authic vidOf V code num mid vid0 body sigb s n hs (fun _ => hau) hnz hn hnum hmid hvid hsig]
+  have e1 : sigb.isEmpty = false := by cases sigb <;> simp_all
+  have e2 : vid0.isEmpty = false := by cases vid0 <;> simp_all
+  have hz' : code ∈ Gen.zeroDex := by simpa using hz
+  simp [classify, hz', pickTail, hutf, e1, e2, hver, hvutf, hvne, hsne]
+
+/-- … signed later gram: accepted exactly under the vid the receiver holds for that memo id (set by the zeroth gram) — and, K2 / F32,
+REJECTED when the receiver holds none, because then `verify` is asked about the empty vid -/
+theorem header_roundtrip_later_signed (authic : Bool) (vidOf : Bytes → Option Bytes) (V : Bytes → Bytes → Bytes → Except Exn Unit)
+    (code num mid body sigb : Bytes) (s : Sizage) (n : Nat)
+    (hs : sizesOf code = .ok s) (hau : Gen.authDex.contains code = true) (hz : Gen.zeroDex.contains code = false) (hg : Gen.gramDex.contains code = true)
+    (hv : s.vz = 0) (hnz : 1 ≤ s.nz) (hn : n < 64 ^ s.nz) (hnum : numField false n s.nz = .ok num) (hmid : mid.length = s.mz) (hutf : utf8Valid mid = true)
+    (hsig : sigb.length = s.az) (hsne : sigb ≠ []) :
+    (∀ v, vidOf mid = some v → v ≠ [] → utf8Valid v = true → V v sigb (code ++ (num ++ (mid ++ body))) = .ok () →
+      pick authic vidOf V (code ++ (num ++ (mid ++ (body ++ sigb)))) = .ok ⟨mid, some v, n, none, body⟩) ∧
+    (vidOf mid = none → ∀ e, V [] sigb (code ++ (num ++ (mid ++ body))) = .error e →
+      pick authic vidOf V (code ++ (num ++ (mid ++ (body ++ sigb)))) = .error e) := by
+  have := header_roundtrip_b64 authic vidOf V code num mid [] body sigb s n hs (fun _ => hau) hnz hn hnum hmid (by simp [hv]) hsig
+  simp only [List.nil_append] at this
+  have e1 : sigb.isEmpty = false := by cases sigb <;> simp_all
+  have hz' : code ∉ Gen.zeroDex := by simpa using hz
+  have hg' : code ∈ Gen.gramDex := by simpa using hg
+  constructor
+  · intro v hvo hvne hvutf hver
+    have e2 : v.isEmpty = false := by cases v <;> simp_all
+    rw [this]
+    simp [classify, hz', hg', pickTail, hutf, e1, e2, hvo, hver, hvutf, hvne, hsne]
+  · intro hvo e hver
+    rw [this]
+    simp [classify, hz', hg', pickTail, hutf, e1, hvo, hver, hsne]
+
 /-- the fuse pass treats every memo id independently (this is what lets one memo be followed through arbitrary other traffic):
 `_serviceOnceRxGrams` keeps exactly the entries that `stays` and queues exactly `deliv` of each entry, in order -/
 theorem fuse_pass_per_entry (es : List Entry) : fuseAll es = .ok (es.filter stays, es.filterMap deliv) :=
   fuseAll_char es
+
+/-- the bridge from the service call to the per-memo view: when `pick` accepts every datagram of the queue (parsed grams `pgs`),
+`serviceAllRx()` stores them in order and then runs the fuse pass — the delivered memos are `deliv` of each entry of `storeAll pgs es` -/
+theorem service_is_store_then_fuse (authic : Bool) (V : Bytes → Bytes → Bytes → Except Exn Unit) (q : List (Bytes × Nat)) (es : List Entry)
+    (pgs : List (PG × Nat)) (h : picks authic V q es = some pgs) :
+    serviceAllRx authic V es q = .ok ⟨(storeAll pgs es).filter stays, [], (storeAll pgs es).filterMap deliv⟩ := by
+  simp [serviceAllRx, recvLoop_picks authic V q es pgs h, fuseAll_char]
 
 /-- C20 receiver side, one service batch: a receiver that holds nothing for the memo's id receives ANY sequence of accepted grams in
 which every gram bearing that id is a genuine gram of the memo (any order, any duplicates, interleaved with arbitrary grams of other ids).
@@ -205,6 +294,12 @@ theorem redelivered_on_full_replay :
       = [some ⟨[104, 105], 7, none⟩, some ⟨[104, 105], 7, none⟩] := by decide
 
 /-! ### non-vacuity / concrete tests (bounded checks, not the unbounded claims) -/
+
+/-- the hypotheses of the header round trip are met by the plain zeroth code `bAAA` with count 2 and a 24 character mid -/
+example : ∃ s num, sizesOf [98, 65, 65, 65] = .ok s ∧ Gen.zeroDex.contains [98, 65, 65, 65] = true ∧ s.vz = 0 ∧ s.az = 0 ∧ 1 ≤ s.nz ∧
+    2 < 64 ^ s.nz ∧ numField false 2 s.nz = .ok num ∧ (List.replicate 24 65).length = s.mz ∧ utf8Valid (List.replicate 24 65) = true := by
+  obtain ⟨t, h1, _, _⟩ := B64.intToB64_spec 2 4 (by omega)
+  exact ⟨⟨4, 4, 24, 0, 0⟩, t, by decide, by decide, rfl, rfl, by decide, by decide, by simp [numField, h1, liftB64], by decide, by decide⟩
 
 example : Genuine ⟨[1], [[104], [105]], 7, none⟩ [(⟨[1], none, 1, none, [105]⟩, 7), (⟨[9], none, 5, none, [0]⟩, 3), (⟨[1], none, 0, some 2, [104]⟩, 7)] := by
   intro x hx hm
